@@ -442,6 +442,10 @@ impl<B: Body> RequestBuilder<B> {
         let headers = &mut prepped.headers;
 
         header_insert(headers, CONNECTION, "close")?;
+        // The framing of the request is decided by the body alone: a Content-Length or
+        // Transfer-Encoding supplied by the caller would contradict what is actually written.
+        headers.remove(CONTENT_LENGTH);
+        headers.remove(TRANSFER_ENCODING);
         match prepped.body.kind()? {
             BodyKind::Empty => (),
             BodyKind::KnownLength(len) => {
